@@ -16,8 +16,6 @@ global size_of usize == 8;
 // ---------------------------------------------------------------- abstract block cursor (ASSUMED to obey the contract)
 #[verifier::external_body]
 struct BlockCursor { _p: u8 }
-//@ extract sst/src/lib.rs | struct KeyValueRef
-//@ end
 impl BlockCursor {
     uninterp spec fn ents(&self) -> Seq<Ent>;
     uninterp spec fn pos(&self) -> int;
